@@ -697,4 +697,15 @@ def specHasAsset (defs : List SDef) (e : ExchangeId) (n : AssetNameInternal) : B
 def specHasInstrument (defs : List SDef) (e : ExchangeId) (n : InstrumentNameInternal) : Bool :=
   defs.any (fun d => d.exchange == e && d.nameInternal == n)
 
+/-- `map_asset_key_with_lookup` "maps this instrument's `AssetKey` to a new key, using the provided
+lookup closure": it can only succeed when every asset the instrument refers to is found; the error
+reported is the lookup's error for the first reference (base, quote, settlement, quantity unit)
+that is not. -/
+def firstError {ε A B : Type} (f : A → Except ε B) : List A → Option ε
+  | [] => none
+  | a :: t =>
+    match f a with
+    | .error x => some x
+    | .ok _ => firstError f t
+
 end BarterModel.Names
